@@ -364,6 +364,64 @@ func c14Names(r *run.Run) {
 			}
 		})
 
+	r.Explore(explore.Config{Name: "C14.name-shared-bytes"}, "a Macintosh and a Windows record whose strings have the same bytes in their platform encodings (Mac Roman \"AB\" = UTF-16BE U+4142; the encoder stores identical byte strings once): every pair of name ids x 4 byte strings x which platform also carries an unrelated string: each record decodes in its own platform's encoding",
+		func(c *explore.Ctx) {
+			pairs := [][2]string{{"AB", "\u4142"}, {"ABCD", "\u4142\u4344"}, {"A ", "\u4120"}, {"fi? ok", "\u6669\u3f20\u6f6b"}}
+			pr := pairs[c.Choose(len(pairs), "byte string")]
+			ids := []name.ID{0, 1, 4, 255}
+			macID := ids[c.Choose(len(ids), "mac name id")]
+			winID := ids[c.Choose(len(ids), "windows name id")]
+			extra := c.Choose(3, "unrelated string")
+			mt, wt := &name.Table{}, &name.Table{}
+			name.VerifSet(mt, macID, pr[0])
+			name.VerifSet(wt, winID, pr[1])
+			if extra == 1 {
+				name.VerifSet(mt, 2, "Regular")
+			} else if extra == 2 {
+				name.VerifSet(wt, 2, "Regular")
+			}
+			info := &name.Info{Mac: name.Tables{"en": mt}, Windows: name.Tables{"en-US": wt}}
+			desc := fmt.Sprintf("mac id %d %q, windows id %d %q, unrelated %d", macID, pr[0], winID, pr[1], extra)
+			c.Sample(func() any { return desc })
+			c.Nontrivial()
+			b := info.Encode(1)
+			c.Outcome(b)
+			back, err := name.Decode(b)
+			if err != nil {
+				c.Fail("C14.name", "shared bytes decode", "Decode(Encode(info)) fails: %v (%s)", err, desc)
+				return
+			}
+			if back.Mac["en"] == nil || back.Windows["en-US"] == nil {
+				c.Fail("C14.name", "shared bytes languages", "tables come back as %v / %v (%s)", keysOf(back.Mac), keysOf(back.Windows), desc)
+				return
+			}
+			if got := name.VerifGet(back.Mac["en"], macID); got != pr[0] {
+				c.Fail("C14.name", "shared bytes mac", "Macintosh string %q comes back as %q (%s)", pr[0], got, desc)
+			}
+			if got := name.VerifGet(back.Windows["en-US"], winID); got != pr[1] {
+				c.Fail("C14.name", "shared bytes windows", "Windows string %q comes back as %q (%s)", pr[1], got, desc)
+			}
+			recs, err := refParseName(b)
+			if err != nil {
+				c.Fail("C14.name-structure", "shared bytes", "independent parser: %v", err)
+				return
+			}
+			for _, rec := range recs {
+				want := ""
+				switch {
+				case rec.platform == 1 && rec.id == uint16(macID):
+					want = pr[0]
+				case rec.platform == 3 && rec.id == uint16(winID):
+					want = pr[1]
+				default:
+					continue
+				}
+				if got := refDecodeRec(rec); got != want {
+					c.Fail("C14.name-structure", "shared bytes record", "independent reader sees %q for platform %d name id %d, want %q (%s)", got, rec.platform, rec.id, want, desc)
+				}
+			}
+		})
+
 	r.Explore(explore.Config{Name: "C14.utf16"}, "UTF-16 through the Windows name records: every BMP scalar (in blocks of 256) and all surrogate-pair corner combinations survive Encode/Decode and an independent UTF-16 reader",
 		func(c *explore.Ctx) {
 			var s string
